@@ -112,9 +112,6 @@ pub fn build_uni(p: &Placed, server: &mut Server, scratch: &std::path::Path) -> 
         if part.decl_text.contains("\n\n") || part.decl_text.rfind("export type ") != Some(real_start) {
             return Ok(None);
         }
-        if part.imports.values().any(|n| n.contains("from")) {
-            return Ok(None);
-        }
     }
     Ok(Some(Uni {
         ninsts: m.insts.len(),
@@ -772,7 +769,10 @@ pub fn run_property(ctx: &Ctx, property: &'static str, out: &mut Outcome, known:
         // the same with the `format` feature: what is merged is dprint's output
         if property != "C17" {
             let n = if ctx.thorough() { 16 * 4 } else { 16 * 2 };
-            let modules = gen_modules(ctx, &profile_universe(), n, fnv(property) % 10_000 + 77 + round as u64 * 7919);
+            let mut profile = profile_universe();
+            profile.long_names = 75;
+            profile.user_refs = 85;
+            let modules = gen_modules(ctx, &profile, n, fnv(property) % 10_000 + 77 + round as u64 * 7919);
             let cfg = subjects::SlotCfg { features: vec!["format".into(), "no-serde-warnings".into()], ..Default::default() };
             let corpus = build(ctx, modules, &cfg);
             out.bump("universes_built_with_format_feature", corpus.modules.len() as u64);
@@ -908,7 +908,8 @@ pub fn replay_history(ctx: &Ctx, property: &str, case: &Value) -> Vec<Value> {
     let inner = if case["case"].is_object() { &case["case"] } else { case };
     let Ok(module) = serde_json::from_value::<typegen::Module>(inner["module"].clone()) else { return vec![] };
     let hist = History::from_raw(&inner["history"]);
-    let corpus = build(ctx, vec![module], &subjects::SlotCfg::default());
+    let cfg = subjects::SlotCfg::from_json(&inner["slot_cfg"]).unwrap_or_default();
+    let corpus = build(ctx, vec![module], &cfg);
     let results = for_each_module(ctx, &corpus, |p, s, cwd| module_check(property, p, s, cwd, ctx, hist.as_ref()));
     results.into_iter().flat_map(|(_, r)| r.failures).collect()
 }
